@@ -12,6 +12,12 @@ int isdigit(int); int isxdigit(int); int isalpha(int); int isalnum(int); int isp
 int isspace(int); int isupper(int); int islower(int); int tolower(int); int toupper(int);
 char *strchr(const char *, int); size_t strlen(const char *); int strcmp(const char *, const char *);
 int strncmp(const char *, const char *, size_t);
+/* search jobs (input finders run after a failed contract proof): the harness passes its own recorded objects; under contract
+   enforcement __CPROVER_is_fresh would replace them by fresh allocations the harness cannot see, so a search job only requires
+   the objects to be readable */
+#ifdef VERIF_SEARCH
+#define __CPROVER_is_fresh(p, n) __CPROVER_r_ok((p), (n))
+#endif
 /* throw lowering */
 extern int verif_thrown;
 #define VERIF_THROW() do { verif_thrown = 1; } while (0)
